@@ -63,6 +63,9 @@ pub struct ClientInner {
     pub account_rx: Mutex<std::collections::VecDeque<mpsc::UnboundedReceiver<UnindexedAccountEvent>>>,
     pub snapshot: UnindexedAccountSnapshot,
     pub snapshot_calls: Mutex<u64>,
+    /// numbers (1-based) of the `account_snapshot` calls that report a balance for an asset nobody
+    /// configured (an airdrop): the manager cannot index such a snapshot
+    pub poisoned_snapshot_calls: Mutex<Vec<u64>>,
 }
 
 #[derive(Clone)]
@@ -84,6 +87,7 @@ impl SimClient {
                 account_rx: Mutex::new(std::collections::VecDeque::from([rx])),
                 snapshot,
                 snapshot_calls: Mutex::new(0),
+                poisoned_snapshot_calls: Mutex::new(Vec::new()),
             })),
             tx,
         )
@@ -162,8 +166,20 @@ impl ExecutionClient for SimClient {
         _: &[AssetNameExchange],
         _: &[InstrumentNameExchange],
     ) -> Result<UnindexedAccountSnapshot, UnindexedClientError> {
-        *self.0.snapshot_calls.lock().unwrap() += 1;
-        Ok(self.0.snapshot.clone())
+        let call = {
+            let mut n = self.0.snapshot_calls.lock().unwrap();
+            *n += 1;
+            *n
+        };
+        let mut snapshot = self.0.snapshot.clone();
+        if self.0.poisoned_snapshot_calls.lock().unwrap().contains(&call) {
+            snapshot.balances.push(AssetBalance {
+                asset: AssetNameExchange::from("airdrop"),
+                balance: barter_execution::balance::Balance::new(dec(1), dec(1)),
+                time_exchange: ts(self.now_ms() as i64),
+            });
+        }
+        Ok(snapshot)
     }
 
     async fn account_stream(
